@@ -1744,7 +1744,7 @@ func display(tokens []Token, _ string) pr.CssProperty {
 		if !ok {
 			return nil
 		}
-		value := string(ident.Value)
+		value := utils.AsciiLower(string(ident.Value)) // keywords are ASCII case-insensitive
 		switch value {
 		case "block", "inline":
 			if outside != "" {
